@@ -3,6 +3,8 @@ import CkbVerif.Model.Molecule
 import CkbVerif.Model.Json
 import CkbVerif.Model.Hash
 import CkbVerif.Model.HashView
+import CkbVerif.Model.HashProof
+import CkbVerif.Model.MolSize
 import CkbVerif.Gen.Schemas
 
 /-! Line-protocol driver for C15 (protocol: harness/hcore/src/c15.rs).
@@ -27,6 +29,14 @@ Stream `view` (harness/hcore/src/c15_term.rs; model: `Model/Hash.lean` over the 
                                  6 packed as_advanced_builder + one proposal + build_unchecked, 7 new_unchecked(_with_extension) with the body reversed
                                  dump = hash tr ph xh th wh uh (caches) ti (transaction(i) for all i) pp (proposals) ext
   terms: `0` zero digest, `h<hex>` blake2b(literal bytes), `d(t,..)` blake2b(concatenated digests)
+
+Stream `proof` (harness/hcore/src/c15_proof.rs; model: `Model/HashProof.lean`):
+  mpg <leaves> <leaf-indices>             -> none | panic | nodes= idx= lem= ret= root= mr=   generic u64 instantiation, merge l r = 31 l + 17 r + 1 mod 2^64
+  mrg <indices> <lemmas> <leaves>         -> some <r> | none                                   `proofRoot`
+  mlg <leaves> <indices>                  -> some <l> | none                                   `retrieveLeaves`
+  mpb <n> <ranks> <leaf-indices>          -> none | panic | idx= lem= ret= root= mr=           ckb instantiation over terms, leaf order by rank
+  txv <n> <ranks> <leaf-indices> <tamper> -> none | panic | rej | ok <terms>                   `getTxProof`, tamper, `verifyTxProof`
+  ssz <blockhex>                          -> wo= txs= uncle= pid=                              `Model/MolSize.lean`
 
 Value syntax (one token): `bHH` byte, `xHEX…` non-empty sequence of bytes, `(v,v,…)` sequence,
 `()` empty sequence, `N` none, `S<v>` some, `U<id>:<v>` union.
@@ -273,9 +283,144 @@ def stepView (ts : List String) : String :=
     | none => "bad-op"
   | _ => "bad-op"
 
+/-! ### stream `proof` -/
+
+open CkbVerif.Hash in
+mutual
+def dgBeq : Dg → Dg → Bool
+  | .zero, .zero => true
+  | .hb a, .hb b => a == b
+  | .hd a, .hd b => dgBeqL a b
+  | .hm l a, .hm l' b => l == l' && dgBeqL a b
+  | .raw a, .raw b => a == b
+  | _, _ => false
+def dgBeqL : List Dg → List Dg → Bool
+  | [], [] => true
+  | a :: as, b :: bs => dgBeq a b && dgBeqL as bs
+  | _, _ => false
+end
+
+instance : BEq CkbVerif.Hash.Dg := ⟨dgBeq⟩
+
+/-- the merge of the generic instantiation `M64` of the harness -/
+def m64 (l r : Nat) : Nat := (l * 31 + r * 17 + 1) % 18446744073709551616
+
+def optStr {β : Type} (f : β → String) : Option β → String
+  | some x => f x
+  | none => "none"
+
+def leafTerm (i : Nat) : CkbVerif.Hash.Dg := .hb [UInt8.ofNat (i % 256), UInt8.ofNat (i / 256)]
+
+def leafIdx : CkbVerif.Hash.Dg → Option Nat
+  | .hb [a, b] => some (a.toNat + 256 * b.toNat)
+  | _ => none
+
+/-- `Byte32: Ord` on the leaf digests, as told by the harness (rank of leaf j's digest) -/
+def leRank (ranks : List Nat) (a b : CkbVerif.Hash.Dg) : Bool :=
+  let rk := fun t => match leafIdx t with | some i => ranks.getD i 0 | none => 0
+  Nat.ble (rk a) (rk b)
+
+def showTerms (l : List CkbVerif.Hash.Dg) : String := showList (l.map showDg)
+
+open CkbVerif.Hash in
+def tamperProof (k : Nat) (p : MProof Dg) (foreign : Dg) : MProof Dg :=
+  match k with
+  | 1 => { p with indices := p.indices.reverse }
+  | 2 => match p.indices with
+    | a :: b :: r => { p with indices := b :: a :: r }
+    | _ => p
+  | 3 => { p with indices := p.indices.headD 0 :: p.indices }
+  | 4 => { p with lemmas := p.lemmas.dropLast }
+  | 5 => { p with lemmas := p.lemmas ++ [foreign] }
+  | 6 => match p.lemmas with
+    | a :: b :: r => { p with lemmas := b :: a :: r }
+    | _ => p
+  | 8 => match p.indices with
+    | a :: r => { p with indices := (a + 1) :: r }
+    | _ => p
+  | 9 => match p.indices with
+    | a :: r => { p with indices := (a - 1) :: r }
+    | _ => p
+  | 10 => match p.lemmas with
+    | _ :: r => { p with lemmas := foreign :: r }
+    | _ => p
+  | 11 => { p with indices := p.indices ++ [p.indices.getLastD 0] }
+  | _ => p
+
+open CkbVerif.Hash in
+def stepProof (ts : List String) : String :=
+  match ts with
+  | ["mpg", ls, is] =>
+    match parseNatList? ls, parseNatList? is with
+    | some leaves, some idx =>
+      let nodes := buildTree m64 0 leaves
+      match buildProof Nat.ble 0 nodes idx with
+      | .none => "none"
+      | .panic => "panic"
+      | .some p =>
+        let ret := retrieveLeaves 0 leaves p
+        let root := ret.bind (proofRoot Nat.ble m64 p)
+        s!"nodes={showNatList nodes} idx={showNatList p.indices} lem={showNatList p.lemmas} ret={optStr showNatList ret} root={optStr toString root} mr={cbmtRoot m64 0 leaves}"
+    | _, _ => "bad-op"
+  | ["mrg", is, lm, ls] =>
+    match parseNatList? is, parseNatList? lm, parseNatList? ls with
+    | some indices, some lemmas, some leaves =>
+      match proofRoot Nat.ble m64 { indices := indices, lemmas := lemmas } leaves with
+      | some r => s!"some {r}"
+      | none => "none"
+    | _, _, _ => "bad-op"
+  | ["mlg", ls, is] =>
+    match parseNatList? ls, parseNatList? is with
+    | some leaves, some indices =>
+      match retrieveLeaves 0 leaves ({ indices := indices, lemmas := [] } : MProof Nat) with
+      | some r => "some " ++ showNatList r
+      | none => "none"
+    | _, _ => "bad-op"
+  | ["mpb", n, rk, is] =>
+    match parseNat? n, parseNatList? rk, parseNatList? is with
+    | some n, some ranks, some idx =>
+      let A := termAlg
+      let leaves := (List.range n).map leafTerm
+      match buildMerkleProof (leRank ranks) (merge A) A.zero leaves idx with
+      | .none => "none"
+      | .panic => "panic"
+      | .some p =>
+        let ret := retrieveLeaves A.zero leaves p
+        let root := ret.bind (proofRoot (leRank ranks) (merge A) p)
+        s!"idx={showNatList p.indices} lem={showTerms p.lemmas} ret={optStr showTerms ret} root={optStr showDg root} mr={showDg (merkleRoot A leaves)}"
+    | _, _, _ => "bad-op"
+  | ["txv", n, rk, is, tk] =>
+    match parseNat? n, parseNatList? rk, parseNatList? is, parseNat? tk with
+    | some n, some ranks, some idx, some tk =>
+      let A := termAlg
+      let leaves := (List.range n).map leafTerm
+      let wit : List Dg := (List.range n).map fun i => .hb [0x77, UInt8.ofNat (i % 256), UInt8.ofNat (i / 256)]
+      let foreign : Dg := .hb [0xfd]
+      let witnessesRoot := merkleRoot A wit
+      let transactionsRoot := merkleRoot A [merkleRoot A leaves, witnessesRoot]
+      match getTxProof A (leRank ranks) leaves idx with
+      | .none => "none"
+      | .panic => "panic"
+      | .some p =>
+        let wroot := if tk = 7 then foreign else witnessesRoot
+        match verifyTxProof A (leRank ranks) leaves transactionsRoot wroot (tamperProof tk p foreign) with
+        | some hs => "ok " ++ showTerms hs
+        | none => "rej"
+    | _, _, _, _ => "bad-op"
+  | ["ssz", hx] =>
+    match unhex hx with
+    | some bs =>
+      let txs := match bodyOfBlock bs with
+        | some (_, body) => showNatList (body.txs.map txSizeInBlock)
+        | none => "err"
+      s!"wo={optStr toString (sizeWithoutUncleProposals bs)} txs={txs} uncle={uncleSizeInBlock} pid={proposalShortIdSize}"
+    | none => "bad-op"
+  | _ => "bad-op"
+
 def main (args : List String) : IO UInt32 :=
   match args with
   | ["view"] => runLines () (fun _ ts => ((), stepView ts))
+  | ["proof"] => runLines () (fun _ ts => ((), stepProof ts))
   | ["json"] => runLines () (fun _ ts => ((), stepJson ts))
   | _ => runLines () (fun _ ts => ((), stepMol ts))
 
